@@ -11,6 +11,11 @@ for w in $(seq 1 $N); do
 done
 wait
 for w in $(seq 1 $N); do
-  for d in /tmp/dv_$w/seeded/*/; do id=$(basename $d); [ -f $d/detect.json ] && cp $d/detect.json /verif/seeded/$id/detect.json; done
+  # copy back ONLY the results this worker produced (its copy also holds stale detect.json files of every other id)
+  i=0
+  for id in "${ids[@]}"; do
+    if [ $(( i % N + 1 )) -eq $w ] && [ -f /tmp/dv_$w/seeded/$id/detect.json ]; then cp /tmp/dv_$w/seeded/$id/detect.json /verif/seeded/$id/detect.json; fi
+    i=$((i+1))
+  done
   cat /tmp/dv_$w.log; rm -rf /tmp/dv_$w
 done
